@@ -25,7 +25,7 @@ mod proofs {
         fn drop(&mut self) { DROPS.fetch_add(1, Ordering::SeqCst); }
     }
     impl MessageBody for Tok {
-        fn byte_len(&self) -> usize { 4 }
+        fn byte_len(&self) -> usize { 77 } // declared length deliberately differs from size_of::<Tok>()
     }
 
     /// same layout as Tok / u32, different type
@@ -35,7 +35,7 @@ mod proofs {
     #[derive(Debug, PartialEq)]
     struct NoClone(u64);
     impl MessageBody for NoClone {
-        fn byte_len(&self) -> usize { 8 }
+        fn byte_len(&self) -> usize { 1000 } // declared length deliberately differs from size_of::<NoClone>()
     }
 
     // ---- exactly the creation type reads back, with the value put in -------------------------------
@@ -110,7 +110,7 @@ mod proofs {
         let x: u64 = kani::any();
         let b = Body::new_non_clonable(NoClone(x));
         assert!(b.try_clone().is_none());
-        assert!(b.length() == 8);
+        assert!(b.length() == 1000); // the DECLARED byte length, not the memory size
         assert!(b.is::<NoClone>() && !b.is::<u64>());
         assert!(b.try_cast::<NoClone>().ok() == Some(NoClone(x)));
     }
@@ -161,6 +161,8 @@ mod proofs {
     #[kani::proof]
     fn drop_count_total() {
         let x: u32 = kani::any();
+        assert!(Body::new(Tok(x)).length() == 77);
+        assert!(Body::new(Tok(x)).clone().length() == 77);
         let n_clones: u8 = kani::any();
         kani::assume(n_clones <= 2);
         let base = drops();
